@@ -85,8 +85,8 @@ impl Property for C07 {
     }
     fn cases(&self, tier: Tier) -> u64 {
         match tier {
-            Tier::Quick => 600000,
-            Tier::Thorough => 10000000,
+            Tier::Quick => 2_500_000,
+            Tier::Thorough => 30_000_000,
         }
     }
     fn decode(&mut self, tape: &TapeVal) -> Case {
